@@ -1590,6 +1590,7 @@ def _t_eval(target, _t, scope):
                 _extend_children(nxt, cur, get_handler)
             elif op == 'X':
                 sofar = set()
+                sofar.add(id(cur))
                 _extend_children(nxt, cur, get_handler)
                 for item in nxt:
                     if id(item) not in sofar:
